@@ -1419,7 +1419,8 @@ def run_avctp_case(ctx, case) -> None:
             if len(pdus) >= 2:
                 labels.add('avctp:fragmented')
                 nontrivial = True
-                if any(len(p) <= 2 for p in pdus[1:]):
+                # (a continue/end packet has 1 header byte in the specification's layout, 3 where the PID is repeated)
+                if any(len(p) <= (2 if layout == SPEC_LAYOUT else 4) for p in pdus[1:]):
                     labels.add('avctp:tiny_fragment')
                 if all(len(p) == mtu for p in pdus[:-1]):
                     labels.add('avctp:full_fragments')
